@@ -367,6 +367,12 @@ func (e *uxfEnv) linearise(cid, best0 int, final [][]int) (uxObs, []uxStepOut) {
 			}
 			a := uxAct{Res: x.res}
 			if x.typ == uxfRelock {
+				if pc == uxIdle {
+					// woken although nothing was enqueued since it parked: the
+					// late Signal of an earlier Enqueue
+					pc = uxWake
+					emit(uxAct{Op: "Signal", Res: "ok"})
+				}
 				a.Op, a.Res = "Wake", "ok"
 			} else {
 				a.Op = uxPcOp[x.kind]
